@@ -24,9 +24,27 @@ Definition IP6_specs : stable :=
 
 (* hop-by-hop options header: Next Header, Hdr Ext Len (8-octet units beyond the first 8), options *)
 Definition hbh_len (l : bytes) : N := 8 * bits l 8 8 + 8.
+(* the options area (RFC 8200 4.2) is a sequence of TLVs: Pad1 is the single octet 0; every other option is
+   type(8) length(8) data(length octets).  The parse succeeds iff the options tile the area exactly. *)
+Fixpoint hbh_tlvs_ok (fuel : nat) (d : bytes) : bool :=
+  match fuel with
+  | O => false
+  | S f =>
+      match d with
+      | [] => true
+      | t :: r =>
+          if t =? 0 then hbh_tlvs_ok f r else
+          match r with
+          | [] => false
+          | n :: r' => if Nat.ltb (List.length r') (N.to_nat n) then false else hbh_tlvs_ok f (skipn (N.to_nat n) r')
+          end
+      end
+  end.
+Definition hbh_options (l : bytes) : bytes := sub l 2 (N.to_nat (hbh_len l) - 2).
 Definition HBH_specs : stable :=
   [sp "Data" (fun l => VR 2 (N.to_nat (hbh_len l) - 2)); sp "Len" (fun l => VN (hbh_len l));
-   sp "NextHeader" (sfield 0 8); nospec "ParseHopByHopExtensions"].
+   sp "NextHeader" (sfield 0 8);
+   sp "ParseHopByHopExtensions" (fun l => if hbh_tlvs_ok (S (List.length (hbh_options l))) (hbh_options l) then VU else VE)].
 
 (* ================================================================= *)
 (* ICMP, RFC 792 / RFC 4443 *)
